@@ -2,6 +2,9 @@ module verif/harness
 
 go 1.13
 
-require com.tuntun.rangers/node v0.0.0
+require (
+	com.tuntun.rangers/node v0.0.0
+	github.com/holiman/uint256 v1.1.1
+)
 
 replace com.tuntun.rangers/node => /repo
